@@ -87,11 +87,16 @@ def iclass(t, side, depth=0):
     t = t.strip()
     # qualifiers of the pointer itself (T *const, T *restrict) say nothing about what is passed
     t = re.sub(r"(\*)\s*(?:(?:const|volatile|restrict|__restrict)\s*)+$", r"\1", t).strip()
-    if depth > 6:
+    if depth > 12:
         return ("deep",)
     m = re.match(r"(.*)\[(\d*)\]$", t)
     if m:
-        return ("array", m.group(2), iclass(m.group(1), side, depth + 1))
+        inner = iclass(m.group(1), side, depth + 1)
+        if inner[0] == "array" and m.group(2).isdigit() and str(inner[1]).isdigit():
+            # gfortran's C view of a derived type flattens array components: compare the storage (element count and
+            # element class); the order of the extents is compared separately on the derived type's own text
+            return ("array", str(int(m.group(2)) * int(inner[1])), inner[2])
+        return ("array", m.group(2), inner)
     if "(*" in t or t.endswith(")"):
         return ("fptr",)
     if t.endswith("*"):
@@ -394,7 +399,7 @@ def run_generated(case):
 
 STRUCT_H = """#ifndef SD_H
 #define SD_H
-struct Particle { int id; double weight; int charge; float pos[3]; long tag; };
+struct Particle { int id; double weight; int charge; float pos[3]; long tag; double mat[2][3]; short cube[2][3][4]; int grid[2][3][4][5]; };
 typedef struct Particle Particle;
 #ifdef __cplusplus
 extern "C" {
@@ -413,7 +418,9 @@ def run_struct_forms(case):
     from .. import shroudrun
     lang, form = case["lang"], case["form"]
     res = {"violations": [], "stats": {}, "name": "sd-%s-%s" % (lang, form)}
-    members = [{"decl": "int id"}, {"decl": "double weight"}, {"decl": "int charge"}, {"decl": "float pos[3]"}, {"decl": "long tag"}]
+    members = [{"decl": "int id"}, {"decl": "double weight"}, {"decl": "int charge"}, {"decl": "float pos[3]"}, {"decl": "long tag"},
+               {"decl": "double mat[2][3]"}, {"decl": "short cube[2][3][4]"}, {"decl": "int grid[2][3][4][5]"}]
+    c_extents = {"pos": [3], "mat": [2, 3], "cube": [2, 3, 4], "grid": [2, 3, 4, 5]}
     if form == "member-fortran-off":
         members[1]["options"] = {"wrap_fortran": False}
     elif form == "member-python-off":
@@ -439,6 +446,24 @@ def run_struct_forms(case):
         res["user_headers"] = ["sd.h"]
         check_dir(res["name"], out, lang, [], [], res, have_objects=False)
         res["unreachable"] = [u for u in res.get("unreachable", []) if "no C declaration visible" not in u]
+        # array members: gfortran's C view flattens them, so the extents are read from the derived type itself; a C
+        # array T a[n1][n2]...[nk] (row major) is the Fortran component a(nk,...,n2,n1) (F2018 18.3.5)
+        ftext = "\n".join(open(os.path.join(out, f)).read() for f in os.listdir(out) if f.startswith("wrapf") and f.endswith(".f"))
+        ftext = re.sub(r"&[ \t]*\n[ \t]*&?", "", ftext)
+        m = re.search(r"type\s*,\s*bind\(C\)\s*::\s*particle\b(.*?)end type", ftext, re.S | re.I)
+        if m:
+            comps = {}
+            for nm, dims in re.findall(r"::\s*(\w+)\s*\(([^)]*)\)", m.group(1)):
+                comps[nm.lower()] = [x.strip() for x in dims.split(",")]
+            for nm, ext in c_extents.items():
+                if nm not in comps:
+                    continue                    # a missing component is the derived-type comparison's finding
+                res["stats"]["array_member_shapes_compared"] = res["stats"].get("array_member_shapes_compared", 0) + 1
+                want = [str(x) for x in reversed(ext)]
+                if comps[nm] != want:
+                    res["violations"].append({"mech": "array-member-extents-differ:rank%d" % len(ext),
+                                              "detail": "%s: C member %s%s is the Fortran component %s(%s); interoperable with it is %s(%s)" % (
+                                                  res["name"], nm, "".join("[%d]" % x for x in ext), nm, ",".join(comps[nm]), nm, ",".join(want))})
         return res
     finally:
         if cwd:
